@@ -43,7 +43,8 @@ def try_replay(pid, r, rec):
     script = driver_for(r['name'])
     if script is None:
         return {'reproduced': False, 'detail': 'no replay driver for this obligation'}
-    req = {'property': pid, 'obligation': r['name'], 'inputs': r.get('inputs'), 'where': r.get('where')}
+    req = {'property': pid, 'obligation': r['name'], 'inputs': r.get('inputs'), 'where': r.get('where'),
+           'unit': r.get('unit')}
     try:
         res = run_driver(script, req)
     except Exception as e:   # noqa
@@ -63,6 +64,7 @@ def replay_file(path):
         print(json.dumps(rec.get('counter_model_inputs'), indent=1, default=str)[:4000])
         return 1
     req = {'property': rec['property'], 'obligation': rec['obligation'], 'inputs': rec.get('counter_model_inputs'),
+           'unit': rec.get('unit'),
            'concrete': (rec.get('replay') or {}).get('input')}
     res = run_driver(script, req)
     print(json.dumps(res, indent=1, default=str))
